@@ -19,6 +19,8 @@ Level: **partial** (see the MANIFEST text).  What the theorems carry:
   exhausted (`kbtype_walk_total`; `old_kbtype_counter_refuted` for the earlier `u8` counter), and under the allocator's
   contract every live heap result is registered with its true kind and released by `chewing_free` (`history_ok`,
   `free_releases`, `free_total`);
+* `chewing_config_get_str("chewing.selection_keys")` hands out valid UTF-8 (one character per key) or ERROR for EVERY
+  array of integers the legacy setters may have stored (`selkeys_getter_wellformed`);
 * table facts regenerated from the source: buffer capacities, keyboard names < 32 bytes, the syllable buffer
   text < 16 bytes, the inventory of exported functions / `unsafe` blocks / iterator sites.
 
@@ -152,9 +154,84 @@ theorem old_copy_cstr_refuted :
   constructor <;> decide
 
 /-- the translator recognised the fixed shapes of `copy_cstr`, of `chewing_free`, of the user-phrase iterator (an owned
-`vec::IntoIter` filled by `entries().collect()`, no borrow of the dictionary) and of the fused keyboard-type counter -/
+`vec::IntoIter` filled by `entries().collect()`, no borrow of the dictionary), of the fused keyboard-type counter and
+of the selection-keys arm of `chewing_config_get_str` (chars collected into a `String`, `CString::new`) -/
 theorem source_shapes :
-    copyCstrShape = 1 ∧ freeShape = 1 ∧ freeRemoves = 1 ∧ userphraseIterBorrows = 0 ∧ kbIterFused = 1 := by decide
+    copyCstrShape = 1 ∧ freeShape = 1 ∧ freeRemoves = 1 ∧ userphraseIterBorrows = 0 ∧ kbIterFused = 1 ∧
+    selKeysGetterShape = 1 := by decide
+
+/-! ### the selection keys as a string
+
+`chewing_set_selKey` / `chewing_Configure` store ANY ten integers (finding F05b of C16: not only ASCII codes);
+`chewing_config_get_str("chewing.selection_keys")` must still hand out well-formed text. -/
+
+theorem selKeysChars_lt (keys : List Int) : ∀ c ∈ selKeysChars keys, c < 256 := by
+  intro c hc
+  obtain ⟨k, _, rfl⟩ := List.mem_map.mp hc
+  omega
+
+theorem zero_mem_utf8Encode (cs : List Nat) (h : 0 ∈ cs) : 0 ∈ utf8Encode cs := by
+  induction cs with
+  | nil => cases h
+  | cons c r ih =>
+    simp only [utf8Encode, List.mem_append]
+    rcases List.mem_cons.mp h with h0 | hr
+    · left; rw [← h0]; decide
+    · right; exact ih hr
+
+/-- **selkeys_getter_wellformed**: for EVERY ten (or any number of) integers the context may hold as selection keys —
+Latin-1 codes, 0, values beyond a byte, negative values — the getter either reports ERROR, exactly when some key's low
+byte is 0, or hands out a NUL-terminated buffer whose text is valid UTF-8 and decodes to one character per key, the
+key's low byte as a code point. -/
+theorem selkeys_getter_wellformed (keys : List Int) :
+    (selKeysCStr keys = none ↔ ∃ k ∈ keys, k % 256 = 0) ∧
+    ∀ buf, selKeysCStr keys = some buf →
+      cText buf = some (utf8Encode (selKeysChars keys)) ∧
+      utf8Decode (utf8Encode (selKeysChars keys)) = some (selKeysChars keys) ∧
+      ValidUtf8 (utf8Encode (selKeysChars keys)) := by
+  have hsc : ∀ c ∈ selKeysChars keys, IsScalar c := fun c hc => Or.inl (by have := selKeysChars_lt keys c hc; omega)
+  have hzero : (0 ∈ selKeysChars keys) ↔ ∃ k ∈ keys, k % 256 = 0 := by
+    unfold selKeysChars
+    constructor
+    · intro h
+      obtain ⟨k, hk, h0⟩ := List.mem_map.mp h
+      exact ⟨k, hk, by omega⟩
+    · rintro ⟨k, hk, h0⟩
+      exact List.mem_map.mpr ⟨k, hk, by omega⟩
+  constructor
+  · unfold selKeysCStr heapCstr
+    constructor
+    · intro h
+      by_cases hz : 0 ∈ utf8Encode (selKeysChars keys)
+      · apply hzero.mp
+        apply Classical.byContradiction
+        intro hn
+        exact utf8Encode_nonzero _ (fun c hc h0 => hn (h0 ▸ hc)) 0 hz rfl
+      · rw [if_neg hz] at h; cases h
+    · intro h
+      rw [if_pos (zero_mem_utf8Encode _ (hzero.mpr h))]
+  · intro buf hb
+    have hnz : ∀ b ∈ utf8Encode (selKeysChars keys), b ≠ 0 := by
+      intro b hbm h0
+      unfold selKeysCStr heapCstr at hb
+      rw [if_pos (h0 ▸ hbm)] at hb; cases hb
+    obtain ⟨buf', h1, h2⟩ := heapCstr_text _ hnz
+    unfold selKeysCStr at hb
+    rw [h1] at hb
+    cases hb
+    exact ⟨h2, decode_encode _ hsc, valid_encode _ hsc⟩
+
+/-- a C string built from the RAW low bytes instead (NOT the code; the shape the translator rejects and the harness
+oracle catches): ten keys 0xE9 — the keysym of `é` — would be handed out as ten bytes 0xE9, which is not UTF-8 -/
+theorem raw_selkeys_refuted :
+    ∃ buf, selKeysCStrRaw (List.replicate 10 0xE9) = some buf ∧ cText buf = some (List.replicate 10 0xE9) ∧
+      ¬ ValidUtf8 (List.replicate 10 0xE9) := ⟨_, rfl, by decide, by unfold ValidUtf8; decide⟩
+
+/-- … while the code hands out `é` ten times: 20 bytes `C3 A9`; and an array with 0 in unused slots is an ERROR -/
+example : (selKeysCStr (List.replicate 10 0xE9)).bind cText = some ((List.replicate 10 [0xC3, 0xA9]).flatten) := by decide
+example : selKeysCStr [49, 50, 51, 52, 53, 0, 0, 0, 0, 0] = none ∧ selKeysCStr [256, 49, 50, 51, 52, 53, 54, 55, 56, 57] = none := by
+  decide
+example : (selKeysCStr [-1, -128, 0x1E9, 65]).bind cText = some [0xC3, 0xBF, 0xC2, 0x80, 0xC3, 0xA9, 65] := by decide
 
 /-! ## 2. Buffers suffice (tables regenerated from the source) -/
 
